@@ -47,3 +47,7 @@ func vAny(cs ...bool) bool {
 	}
 	return r
 }
+
+// vA asserts c on behalf of the listed properties ("C02,C11"); the class of a
+// violation is "<props>:<msg>".
+func vA(props string, c bool, msg string) { vAssertClass(c, msg, props+":"+msg) }
